@@ -136,6 +136,7 @@ def build_gather(P):
                + "/* an active track is inside the geometry in a known volume whose entry exists in the detector map (if any detectors are defined) */\n"
                + "__CPROVER_requires((track->t->status != TS_inactive && self->params->detector.size != 0) ==> (!track->t->outside && track->t->volume != INVALID_ID && track->t->volume < self->params->detector.size))\n"
                + "__CPROVER_requires(track->t->status >= 0 && track->t->status < 5)\n"
+               + "__CPROVER_requires(!__CPROVER_isnand(track->t->time) && !__CPROVER_isnand(track->t->pos) && !__CPROVER_isnand(track->t->dir) && !__CPROVER_isnand(track->t->energy) && !__CPROVER_isnand(track->t->step_length) && !__CPROVER_isnand(track->t->energy_deposition))   /* track quantities are numbers */\n"
                + "".join("__CPROVER_requires(%s)\n" % r for r in req)
                + "__CPROVER_assigns(%s)\n" % assigns
                + "".join("__CPROVER_ensures(%s)\n" % e.split("   /*")[0] for e in ens))
